@@ -598,7 +598,12 @@ fn record_to_proto(record: Record) -> proto::Record {
             .map(|t| {
                 let now = Instant::now();
                 if t > now {
-                    (t - now).as_secs() as u32
+                    // Clamp into `1..=u32::MAX` because 0 means "does not expire":
+                    // a remaining lifetime below one second must not be truncated to 0
+                    // and one of 2^32 seconds or more must not wrap around.
+                    u32::try_from((t - now).as_secs())
+                        .unwrap_or(u32::MAX)
+                        .max(1)
                 } else {
                     1 // because 0 means "does not expire"
                 }
